@@ -71,3 +71,24 @@ impl VxFromStr for bool {
     #[verifier::external_body]
     fn vx_from_str(s: &str) -> (r: Result<bool, VxOpaqueErr>) { unimplemented!() }
 }
+
+// ---- defined std codecs and value extensionality (used by the per-field round-trip proofs) -------------------------------
+/// `bool: Display` writes "true" / "false"
+pub open spec fn bool_text(b: bool) -> Seq<char> { if b { "true"@ } else { "false"@ } }
+/// ASSUMED: a String is determined by its characters, a Vec<String> by its elements' characters (nothing else of these
+/// values is observable through PartialEq, which is what "an equal value" refers to)
+#[verifier::external_body]
+pub proof fn axiom_string_ext(a: String, b: String)
+    requires a@ == b@
+    ensures a == b
+{}
+#[verifier::external_body]
+pub proof fn axiom_vec_string_ext(a: Vec<String>, b: Vec<String>)
+    requires strings_view(a@) == strings_view(b@)
+    ensures a == b
+{}
+pub proof fn lemma_views_same(x: Seq<String>)
+    ensures strs_view(x) == strings_view(x)
+{
+    assert(strs_view(x) =~= strings_view(x));
+}
